@@ -19,6 +19,8 @@ BOOL_TYPES = {'bool_', 'bool', 'bool8'}
 class DType:
     _sa_native = True
 
+    hasobject = False       # the model has numeric and boolean element types only
+
     def __init__(self, name):
         self.name = name
 
@@ -220,7 +222,7 @@ class Arr:
     def tolist(self):
         return list(self.data)
 
-    def copy(self):
+    def copy(self, order='C'):
         return Arr(self.data, self.dtype)
 
     def astype(self, dtype):
